@@ -97,7 +97,7 @@ static void list_bfs() {
 }
 
 static void list_random() {
-    int cases = A.thorough() ? 40000 : 4000;
+    int cases = A.thorough() ? 80000 : 12000;
     rcx::run("list_vs_deque", vc::mix(A.seed * 1000 + A.shard), cases, 200, [&]() -> std::optional<rcx::Fail> {
         size_t cap = rcx::range(1, 4);
         int n = rcx::sized(1, 120);
@@ -202,7 +202,7 @@ static std::string run_table(int mode, size_t cap, const std::vector<TOp> &ops) 
 }
 
 static void table_random() {
-    int cases = A.thorough() ? 30000 : 3000;
+    int cases = A.thorough() ? 60000 : 9000;
     static const std::vector<std::string> atoms = {"a", "A", "b", "B", "-", std::string(1, '\0'), "host", "Host", "HOST", "x"};
     rcx::run("table_vs_multimap", vc::mix(A.seed * 1000 + 500 + A.shard), cases, 200, [&]() -> std::optional<rcx::Fail> {
         int mode = rcx::range(0, 2);
@@ -520,7 +520,7 @@ static void numbers() {
     }
     g_stats.cls("number_boundary_cases", idx / A.nshards);
     // random digit strings 1..25 digits with random decorations
-    int cases = A.thorough() ? 200000 : 20000;
+    int cases = A.thorough() ? 400000 : 60000;
     static const std::string chars = "0123456789abcdefABCDEF \t;xg-+\r\n";
     rcx::run("numeric_parsers", vc::mix(A.seed * 1000 + 900 + A.shard), cases, 100, [&]() -> std::optional<rcx::Fail> {
         std::string s; int n = rcx::range(0, 25); int style = rcx::range(0, 3);
